@@ -313,27 +313,35 @@ func init() {
 		}
 		e.P("def registLockIsMutex : Bool := %s", LeanBool(isMutex))
 
-		// utils/path.go
+		// utils/path.go: the one-pass body (canonicalPath) and the fixed-point loop (CanonicalPath)
 		pf := Parse("utils/path.go")
 		var pc, pconds, passign []string
-		if b := body(pf, "", "CanonicalPath"); b != nil {
+		if b := body(pf, "", "canonicalPath"); b != nil {
 			pc = calls(b, oneOf("ToLower", "TrimSpace", "Clean", "HasPrefix"))
 			pconds = ifConds(b)
+			passign = stmts(b)
+		} else {
+			e.Unknown("canonicalPath")
+		}
+		emitList(e, "canonCalls", "utils.canonicalPath (one pass): tracked calls", pc)
+		emitList(e, "canonConds", "utils.canonicalPath: if conditions", pconds)
+		emitList(e, "canonStmts", "utils.canonicalPath: assignments and returns in source order", passign)
+		var loopStmts []string
+		loopCond := ""
+		if b := body(pf, "", "CanonicalPath"); b != nil {
+			loopStmts = stmts(b)
 			ast.Inspect(b, func(x ast.Node) bool {
-				if as, ok := x.(*ast.AssignStmt); ok {
-					passign = append(passign, Src(as.Lhs[0])+" "+as.Tok.String()+" "+Src(as.Rhs[0]))
-				}
-				if r, ok := x.(*ast.ReturnStmt); ok && len(r.Results) == 1 {
-					passign = append(passign, "return "+Src(r.Results[0]))
+				if f, ok := x.(*ast.ForStmt); ok && f.Init == nil && f.Post == nil {
+					loopCond = Src(f.Cond)
 				}
 				return true
 			})
 		} else {
 			e.Unknown("CanonicalPath")
 		}
-		emitList(e, "canonCalls", "utils.CanonicalPath: tracked calls", pc)
-		emitList(e, "canonConds", "utils.CanonicalPath: if conditions", pconds)
-		emitList(e, "canonStmts", "utils.CanonicalPath: assignments and returns in source order", passign)
+		emitList(e, "canonLoopStmts", "utils.CanonicalPath: assignments and returns in source order", loopStmts)
+		e.P("/-- utils.CanonicalPath: the condition of its for loop -/")
+		e.P("def canonLoopCond : String := %s", LeanStr(loopCond))
 
 		// media/stream.go: NewStream canonicalises; close's status mapping; ConsumerCount
 		sf := Parse("media/stream.go")
@@ -380,6 +388,29 @@ func init() {
 		}
 		emitList(e, "stopStreamCalls", "service.onStopStream: tracked calls", sc)
 	})
+}
+
+// stmts: assignments (all left/right sides) and returns of n in source order
+func stmts(n ast.Node) []string {
+	var out []string
+	ast.Inspect(n, func(x ast.Node) bool {
+		if as, ok := x.(*ast.AssignStmt); ok {
+			l := make([]string, len(as.Lhs))
+			for i, v := range as.Lhs {
+				l[i] = Src(v)
+			}
+			r := make([]string, len(as.Rhs))
+			for i, v := range as.Rhs {
+				r[i] = Src(v)
+			}
+			out = append(out, strings.Join(l, ", ")+" "+as.Tok.String()+" "+strings.Join(r, ", "))
+		}
+		if r, ok := x.(*ast.ReturnStmt); ok && len(r.Results) == 1 {
+			out = append(out, "return "+Src(r.Results[0]))
+		}
+		return true
+	})
+	return out
 }
 
 func containsAssign(as []string, want string) bool {
